@@ -132,7 +132,9 @@ func c01Gen(r *gen.Rng, tier string, idx int) interface{} {
 	if r.Chance(1, 3) { // harder: hundreds to thousands of conflicts, several restarts
 		c.N = r.Range(70, 110)
 	}
-	if r.Chance(1, 6) {
+	if r.Chance(1, 12) {
+		c.CNF, c.N = gen.Ladder(r, r.Range(10, 160))
+	} else if r.Chance(1, 6) {
 		p := r.Range(4, 6)
 		c.CNF, c.N = gen.Pigeonhole(p+1, p)
 		if r.Bool() { // satisfiable variant
@@ -220,6 +222,7 @@ func c01Solve(c *C01Case, front string, cnf [][]int, n int, cert bool, limit int
 	}
 	rec.Count("solves", 1)
 	rec.Count("conflicts", s.Stats.NbConflicts)
+	rec.Max("max_steps_in_one_solve", int(s.VerifSteps()))
 	rec.Count("restarts", s.Stats.NbRestarts)
 	rec.Count("learned", s.Stats.NbLearned)
 	rec.Count("deleted", s.Stats.NbDeleted)
